@@ -32,7 +32,7 @@ Emit ==
         fields |-> sh, size |-> SSize(sh), align |-> SAlign(sh),
         listing |-> [j \in 1..Len(l) |-> [key |-> l[j].key, name |-> l[j].name, id |-> l[j].id, ty |-> l[j].ty,
                                            byval |-> l[j].byval, abs |-> l[j].abs, path |-> NamePath(sh, l[j].pos)]],
-        names |-> SetToSeq({[q |-> k, first |-> FirstKey(l, k)] : k \in KeysOf(l) \cup {"zz"}}),
+        names |-> SetToSeq({[q |-> k, first |-> FirstKey(l, k)] : k \in KeysOf(l) \cup {"zz", ""}}),
         types |-> SetToSeq({[q |-> ty, first |-> FirstType(l, ty)] : ty \in TypesOf(l) \cup {"uintptr"} \cup CloseAll(TypesOf(l))}),
         sel |-> SetToSeq({[names |-> ns, ix |-> [i \in 1..Len(ns) |-> FirstKey(l, ns[i])]] : ns \in nameTuples}),
         selt |-> SetToSeq({[types |-> ts, ix |-> [i \in 1..Len(ts) |-> FirstType(l, ts[i])]] : ts \in typeTuples}),
